@@ -53,6 +53,8 @@ type Config struct {
 	QuantumNs    int64 `json:"quantum_ns,omitempty"`
 	// EndOnMain: the run ends when task 1 exits (an Elk process ends with its main thread).
 	EndOnMain bool `json:"end_on_main,omitempty"`
+	// OptionalYields enables the simhook.YO preemption points (statement level inside the symbol table).
+	OptionalYields bool `json:"optional_yields,omitempty"`
 
 	// OnEnd is called when the run has ended, before abandoned tasks are drained.
 	OnEnd func() `json:"-"`
